@@ -51,6 +51,17 @@ func (m *Machine) lookupIntercept(fn *ssa.Function) intercept {
 				}
 			}
 		}
+		// the command's leveled logger (github.com/alexcesaro/log/golog): logging has an empty body
+		if fn.Pkg != nil && fn.Pkg.Pkg.Path() == "github.com/alexcesaro/log/golog" && fn.Signature.Recv() != nil {
+			res := fn.Signature.Results()
+			ic = func(m *Machine, g *Goroutine, c *callCtx) (Value, stepStatus) {
+				if res.Len() == 1 {
+					return m.zero(res.At(0).Type()), stNext
+				}
+				return nil, stNext
+			}
+			ok = true
+		}
 		// init of packages we do not execute
 		if fn.Name() == "init" && fn.Pkg != nil && fn.Signature.Recv() == nil && !m.ld.isRepoPkg(fn.Pkg.Pkg.Path()) {
 			ic = func(m *Machine, g *Goroutine, c *callCtx) (Value, stepStatus) { return nil, stNext }
@@ -679,6 +690,9 @@ func init() {
 	regV("(*bytes.Buffer).String", func(m *Machine, g *Goroutine, a []Value) Value { return m.builderString(a[0]) })
 	regV("(*bytes.Buffer).Reset", func(m *Machine, g *Goroutine, a []Value) Value {
 		p := a[0].(PtrVal)
+		if m.race.on && p.obj != nil {
+			m.raceObj(p.obj, nil, true)
+		}
 		delete(m.builders, p.obj)
 		return nil
 	})
@@ -696,11 +710,17 @@ func (m *Machine) writeTo(w Value, s StrVal) {
 	if !s.concrete() {
 		s = StrVal{s: "<sym>"}
 	}
+	if m.race.on {
+		m.raceObj(p.obj, nil, true)
+	}
 	m.builders[p.obj] += s.s
 }
 
 func (m *Machine) builderString(v Value) Value {
 	p := v.(PtrVal)
+	if m.race.on && p.obj != nil {
+		m.raceObj(p.obj, nil, false)
+	}
 	return StrVal{s: m.builders[p.obj]}
 }
 
